@@ -1,6 +1,6 @@
 SPECIFICATION TraceSpec
 CONSTANTS MaxSeg = 0
 INVARIANTS TypeOK DataClosed CanonHasHeads CanonLinkedToHead CanonLinkedPending CanonEndsAtHeadPending HeadOrder HeadStateAvail LookupCompletePending LookupSoundPending CacheCoherentPending RecWellFormed RecHeadState RecHeadOrder RecDataClosed RecCanonHasHeadsPending RecCanonLinkedPending RecCanonEndsAtHeadPending RecNoLoss RecLookupSound RecHeals RecStops
-PROPERTIES EventsDescribeSwitchPending AddedLogsCanonical RemovedWereCanonical HeadEventIsHead
+PROPERTIES EventsDescribeSwitchPending AddedLogsCanonical RemovedWereCanonical HeadEventIsHead FlagsRight
 POSTCONDITION TraceAccepted
 CHECK_DEADLOCK FALSE
